@@ -3,11 +3,12 @@
 // Mode "gtp5g": grouped IEs (built with go-pfcp constructors) are handed to the REAL
 // forwarder.Gtp5g.CreatePDR/UpdatePDR/CreateFAR/UpdateFAR, running over SimKernel.
 // Per case the output has
-//   err    the driver's return value ("" = nil) or "panic:..."
-//   reqs   every netlink request the driver issued (cmd, nlmsg flags, parsed attribute tree)
-//   abs    the abstract view of the grouped IE: what go-pfcp's accessors - the same ones the driver
-//          calls - return for each child IE (this is the input handed to the Coq model and spec)
-//   dec    what go-gtp5gnl's own DecodePDR/DecodeFAR make of the ADD request's attribute bytes
+//
+//	err    the driver's return value ("" = nil) or "panic:..."
+//	reqs   every netlink request the driver issued (cmd, nlmsg flags, parsed attribute tree)
+//	abs    the abstract view of the grouped IE: what go-pfcp's accessors - the same ones the driver
+//	       calls - return for each child IE (this is the input handed to the Coq model and spec)
+//	dec    what go-gtp5gnl's own DecodePDR/DecodeFAR make of the ADD request's attribute bytes
 package main
 
 import (
@@ -322,12 +323,12 @@ func absOf(x *ie.IE) absIE {
 }
 
 type gtp5gOut struct {
-	Err    string                 `json:"err"`
-	Reqs   []forwarder.SimRequest `json:"reqs"`
-	TopErr bool                   `json:"top_err"`
-	Abs    []absIE                `json:"abs"`
-	AbsPanic string               `json:"abs_panic"`
-	Dec    interface{}            `json:"dec"`
+	Err      string                 `json:"err"`
+	Reqs     []forwarder.SimRequest `json:"reqs"`
+	TopErr   bool                   `json:"top_err"`
+	Abs      []absIE                `json:"abs"`
+	AbsPanic string                 `json:"abs_panic"`
+	Dec      interface{}            `json:"dec"`
 }
 
 func ipHex(ip net.IP) string { return hex.EncodeToString(ip) }
